@@ -51,6 +51,7 @@ type Opt struct {
 	OmitEmpty  bool // leave `resource` / `scope` unset when they would carry no attribute
 	PerEntry   bool // one ResourceLogs per entry instead of one per stream
 	SevAsLevel bool // label "level" travels as severity_text
+	OneRes     bool // all streams under ONE ResourceLogs, one ScopeLogs each (needs no stream to have resource-level labels)
 }
 
 // jstr writes s as a JSON string with the minimal escapes (the bytes of s are otherwise copied verbatim, so a
@@ -823,6 +824,7 @@ func otlpValue(v string, typed int) *otlpCommon.AnyValue {
 // record attributes (placement chosen by o.Place); the label "level" may travel as severity_text.
 func RenderOTLPLogs(streams []Stream, o Opt) ([]byte, error) {
 	ld := &otlpLogs.LogsData{}
+	var shared *otlpLogs.ResourceLogs
 	for _, s := range streams {
 		var lv [3][]*otlpCommon.KeyValue
 		sev := ""
@@ -868,7 +870,22 @@ func RenderOTLPLogs(streams []Stream, o Opt) ([]byte, error) {
 			recs = append(recs, &otlpLogs.LogRecord{TimeUnixNano: uint64(e.TsNs), SeverityText: sev, Attributes: lv[2],
 				Body: &otlpCommon.AnyValue{Value: &otlpCommon.AnyValue_StringValue{StringValue: e.Line}}})
 		}
-		if o.PerEntry {
+		if o.OneRes {
+			if len(lv[0]) > 0 {
+				return nil, inexpr("resource-level labels differ per stream")
+			}
+			if shared == nil {
+				shared = &otlpLogs.ResourceLogs{Resource: mkRes()}
+				ld.ResourceLogs = append(ld.ResourceLogs, shared)
+			}
+			if o.PerEntry {
+				for _, r := range recs {
+					shared.ScopeLogs = append(shared.ScopeLogs, &otlpLogs.ScopeLogs{Scope: mkScope(), LogRecords: []*otlpLogs.LogRecord{r}})
+				}
+			} else {
+				shared.ScopeLogs = append(shared.ScopeLogs, &otlpLogs.ScopeLogs{Scope: mkScope(), LogRecords: recs})
+			}
+		} else if o.PerEntry {
 			for _, r := range recs {
 				ld.ResourceLogs = append(ld.ResourceLogs, &otlpLogs.ResourceLogs{Resource: mkRes(),
 					ScopeLogs: []*otlpLogs.ScopeLogs{{Scope: mkScope(), LogRecords: []*otlpLogs.LogRecord{r}}}})
